@@ -13,6 +13,10 @@ SHUT_RD, SHUT_WR, SHUT_RDWR = 0, 1, 2
 
 
 def _oserr(e):
+    if e == errno.ETIMEDOUT:
+        return TimeoutError(e, 'Connection timed out')
+    if e in (errno.EHOSTUNREACH, errno.ENETUNREACH):
+        return OSError(e, 'No route to host')
     if e == ECONNRESET:
         return ConnectionResetError(e, 'Connection reset by peer')
     if e == EPIPE:
@@ -381,6 +385,20 @@ def k_shutdown(sim, sock, how):
                 sim.wake_q(sock.tx.rq)
     if notconn:
         raise OSError(errno.ENOTCONN, 'Transport endpoint is not connected')
+
+
+def inject_conn_error(sim, sock, e=errno.ETIMEDOUT):
+    """the connection fails without FIN / RST ever arriving: keep-alive probes time out after the peer host vanished
+    or the path broke (ETIMEDOUT / EHOSTUNREACH).  Both directions of this end are dead from now on."""
+    if sock.state != 'connected' or sock.dead:
+        return False
+    sock.err = e
+    sock.dead = True
+    sim.fault('conn-error:' + errno.errorcode.get(e, str(e)))
+    sim.ev('conn-error', sock.label, e)
+    sim.wake_q(sock.rx.rq)
+    sim.wake_q(sock.tx.wq)
+    return True
 
 
 # ------------------------------------------------------------------------------ construction
